@@ -319,3 +319,27 @@ def branch_flag_conditions(ctx, fn, s):
         else:
             out[bit] = (d, side == 0, arm_val)   # set when (d == arm_val) is `side == 0`
     return out
+
+
+def overlap_hazards(I, fn_filter=None):
+    """An instruction that moves a word from memory to memory reads its whole source operand before it writes (the 8086
+    fetches the operand, then stores), and the two operands may overlap by one byte.  In the ordered memory events of one
+    abstract run: a load from a cell the instruction has not written itself, made after a store to a cell of *another*
+    operand (addresses built from different atoms may coincide; the lanes m and m+1 of one operand cannot), is a byte the
+    instruction may just have overwritten.  -> [(stored cell, cell loaded afterwards)]"""
+    def atoms_of(ev):
+        return frozenset(a for a, _ in ev.idx.deps()) if ev.idx.kind == "int" else frozenset()
+    written, out = [], []
+    for e in I.events:
+        if e.kind != "mem":
+            continue
+        if fn_filter is not None and not fn_filter(e):
+            continue
+        if e.op == "w":
+            written.append(e)
+        elif not any(w.key == e.key for w in written):
+            for w in written:
+                if atoms_of(w) != atoms_of(e) and not w.key.startswith("?") and not e.key.startswith("?"):
+                    out.append((w.key, e.key))
+                    break
+    return out
